@@ -35,6 +35,15 @@ var VerifDir = func() string {
 	return "/verif"
 }()
 
+// OutDir is where evidence and replay files are written (VERIF_OUT_DIR, a
+// development aid for running against scratch trees; defaults to VerifDir).
+var OutDir = func() string {
+	if d := os.Getenv("VERIF_OUT_DIR"); d != "" {
+		return d
+	}
+	return VerifDir
+}()
+
 // Spec describes a check.
 type Spec struct {
 	ID          string
@@ -670,7 +679,7 @@ func doParent(spec *Spec, tier string, seed int64, work string) int {
 		fresh = nil
 	}
 	// confirm fresh violations: 5 re-executions in fresh processes
-	repDir := filepath.Join(VerifDir, "replays")
+	repDir := filepath.Join(OutDir, "replays")
 	os.MkdirAll(repDir, 0o755)
 	var confirmed []Violation
 	var paths []string
@@ -757,8 +766,8 @@ func doParent(spec *Spec, tier string, seed int64, work string) int {
 		"violations":  len(confirmed),
 	}
 	eb, _ := json.MarshalIndent(ev, "", " ")
-	os.MkdirAll(filepath.Join(VerifDir, "evidence"), 0o755)
-	if err := os.WriteFile(filepath.Join(VerifDir, "evidence", spec.ID+".json"), eb, 0o644); err != nil {
+	os.MkdirAll(filepath.Join(OutDir, "evidence"), 0o755)
+	if err := os.WriteFile(filepath.Join(OutDir, "evidence", spec.ID+".json"), eb, 0o644); err != nil {
 		fmt.Fprintln(os.Stderr, "HARNESS-ERROR:", err)
 		return 2
 	}
